@@ -47,7 +47,24 @@ func (mb *mbox) newMessage() (*Message, error) {
 	}
 	date := time.Now()
 	id := generateID(date)
+	// The ID counter restarts with the process, so an ID generated within the same second as one
+	// from a previous run could repeat; never hand out an ID this mailbox already uses.
+	for mb.idInUse(id) {
+		date = time.Now()
+		id = generateID(date)
+	}
 	return &Message{mailbox: mb, Fid: id, Fdate: date}, nil
+}
+
+// idInUse reports whether the mailbox already has a message, or a message file, with this ID.
+func (mb *mbox) idInUse(id string) bool {
+	for _, m := range mb.messages {
+		if m.Fid == id {
+			return true
+		}
+	}
+	_, err := os.Stat(filepath.Join(mb.path, id+".raw"))
+	return err == nil
 }
 
 // Mailbox returns the name of the mailbox this message resides in.
